@@ -133,6 +133,40 @@ pub fn triggers(src: &str, root: &SyntaxNode) -> Vec<&'static str> {
             _ => {}
         }
     }
+    // R54: `@typstyle off` before a list / enum / term item: the item's first line is placed at
+    // the new indentation, its continuation lines keep the old one, so the nesting changes
+    for d in crate::oracle::off::disabled_nodes(root, true) {
+        if matches!(d.kind, K::ListItem | K::EnumItem | K::TermItem) {
+            add("R54");
+        }
+    }
+    // R56: a directive in front of something that is not an expression (a named or spread
+    // argument, a parameter, ...): typstyle marks that node and does not look inside it any more,
+    // so directives inside it are ignored
+    for f in flat.iter() {
+        let mut pending = false;
+        for c in f.node.children() {
+            let k = c.kind();
+            if syn::is_comment(k) {
+                if c.text().contains(crate::oracle::off::DIRECTIVE) {
+                    pending = true;
+                }
+                continue;
+            }
+            if matches!(k, K::Space | K::Hash) {
+                continue;
+            }
+            if pending {
+                pending = false;
+                let claimed = c.cast::<syn::ast::Expr>().is_some() || matches!(k, K::Code | K::Math);
+                if !claimed
+                    && syn::any_node(c, &mut |x| syn::is_comment(x.kind()) && x.text().contains(crate::oracle::off::DIRECTIVE))
+                {
+                    add("R56");
+                }
+            }
+        }
+    }
     // sibling-based rules
     for f in flat.iter() {
         let kids: Vec<&SyntaxNode> = f.node.children().collect();
